@@ -401,6 +401,8 @@ class WireView:
                 handles[res["h"]] = res["sid"]
                 if o == "send_request" and op.get("eos"):
                     eos_out.add(res["sid"])
+                if o == "push_request":
+                    eos_in.add(res["sid"])         # a pushed stream is closed on the peer's side from the start, written or not
             # the endpoint regards its side as finished once END_STREAM was submitted (queued), written or not
             if o in ("send_response", "send_pushed_response", "send_data") and res == "ok" and op.get("eos") and op.get("h") in handles:
                 eos_out.add(handles[op["h"]])
